@@ -39,6 +39,8 @@ func runWallet(tier string, seed int64, summaryPath, outPath string) {
 			sum.Violations = append(sum.Violations, b)
 		}
 	}
+	// one sealer shared by every handler, as in cmd/wallet: whatever it remembers between calls must not let another key open a file
+	sealer := aeswrapper.New()
 	nW := 2
 	vals := 3
 	if tier == "thorough" {
@@ -50,7 +52,7 @@ func runWallet(tier string, seed int64, summaryPath, outPath string) {
 				cls = "CPanic"
 			}
 		}()
-		h := fileoperations.New(fileoperations.Config{WalletPath: path, WalletPasswd: passwd}, aeswrapper.New())
+		h := fileoperations.New(fileoperations.Config{WalletPath: path, WalletPasswd: passwd}, sealer)
 		w, err := h.ReadWallet()
 		if err != nil {
 			return w, "CErr"
@@ -69,7 +71,7 @@ func runWallet(tier string, seed int64, summaryPath, outPath string) {
 			rng.Read(key)
 			passwd := hex.EncodeToString(key)
 			path := filepath.Join(dir, fmt.Sprintf("w%d_%d", wi, ks))
-			h := fileoperations.New(fileoperations.Config{WalletPath: path, WalletPasswd: passwd, WalletPemPath: path + ".pem"}, aeswrapper.New())
+			h := fileoperations.New(fileoperations.Config{WalletPath: path, WalletPasswd: passwd, WalletPemPath: path + ".pem"}, sealer)
 			if wi%2 == 1 { // the wallet path already holds a (longer) file: saving must replace it entirely
 				os.WriteFile(path, bytes.Repeat([]byte{0xAB}, 300+rng.Intn(200)), 0644)
 				sum.Kinds["save.over_existing_longer_file"]++
@@ -79,7 +81,7 @@ func runWallet(tier string, seed int64, summaryPath, outPath string) {
 			wOld, _ := wallet.New()
 			oldKey := make([]byte, ks)
 			rng.Read(oldKey)
-			hOld := fileoperations.New(fileoperations.Config{WalletPath: path, WalletPasswd: hex.EncodeToString(oldKey)}, aeswrapper.New())
+			hOld := fileoperations.New(fileoperations.Config{WalletPath: path, WalletPasswd: hex.EncodeToString(oldKey)}, sealer)
 			if err := hOld.SaveWallet(&wOld); err == nil {
 				sum.Kinds["save.replaces_an_older_wallet"]++
 			}
